@@ -164,20 +164,23 @@ def preparedParts (env : Env) (cfg : Cfg) (term : Str) : Parts :=
   let s : Parts := ⟨env.convert s.pre, s.word, env.convert s.trail⟩
   if cfg.smartQuote then smartQuoter s else s
 
+/-- the emoji items appended after `suggestion_with_dict`; the flag says whether the typed text
+    was already added (as the emoticon) -/
+def emojiStage (env : Env) (cfg : Cfg) (term : Str) (parts : Parts) (l : List Rank) : List Rank × Bool :=
+  if cfg.ansi then (l, false)
+  else
+    match env.emoticon term with
+    | some e =>
+      ((if term != parts.pre then pushChecked l (Rank.last term 1) else l) ++ [Rank.emoji e Gen.emojiDefaultRank], true)
+    | none =>
+      match env.emojiByName parts.word with
+      | some es => (l ++ (es.zipIdx 1).map (fun (s, r) => Rank.emoji (wrapText parts.pre parts.trail s) r), false)
+      | none => (l, false)
+
 /-- the emoji / English items appended after `suggestion_with_dict` -/
 def addExtras (env : Env) (cfg : Cfg) (term : Str) (parts : Parts) (l : List Rank) : List Rank :=
-  let (l, typedAdded) : List Rank × Bool :=
-    if !cfg.ansi then
-      match env.emoticon term with
-      | some e =>
-        let l := if term != parts.pre then pushChecked l (Rank.last term 1) else l
-        (l ++ [Rank.emoji e Gen.emojiDefaultRank], true)
-      | none =>
-        match env.emojiByName parts.word with
-        | some es => (l ++ (es.zipIdx 1).map (fun (s, r) => Rank.emoji (wrapText parts.pre parts.trail s) r), false)
-        | none => (l, false)
-    else (l, false)
-  if cfg.english && !typedAdded && term != parts.pre then pushChecked l (Rank.last term 3) else l
+  let r := emojiStage env cfg term parts l
+  if cfg.english && !r.2 && term != parts.pre then pushChecked r.1 (Rank.last term 3) else r.1
 
 /-- the sorted candidate list of `PhoneticSuggestion::suggest` for a memo already filled -/
 def suggestList (env : Env) (cfg : Cfg) (cache : Memo) (term : Str) : List Rank :=
